@@ -103,15 +103,16 @@ theorem rt_datetime (P : Prims) (hP : PrimLaws P) (dt : DateTime) (hv : dt.valid
       | none => _) = _
     rw [h2]
 
-theorem rt_date (P : Prims) (hP : PrimLaws P) (d : Date) (hv : d.valid = true) :
-    toDate Cfg.fixed P (isoDate d) = .ok d := by
+theorem rt_date (P : Prims) (hP : PrimLaws P) (m : Mode) (d : Date) (hv : d.valid = true) :
+    toDate Cfg.fixed m P (isoDate d) = .ok d := by
   unfold toDate
   rw [toDatetime_iso _ _ _ _ (all_isoChar_isoDate d)]
   have : firstFormat P (isoDate d) [] (DATE_FORMATS ++ DATETIME_FORMATS) = some ⟨d, midnight, none⟩ :=
     firstFormat_head P (isoDate d) [] "%Y-%m-%d".toList _ _ (by rw [List.append_nil]; exact hP.date_fmt d hv)
   simp only [↓reduceIte, this, bind]
+  have hmid : (midnight == midnight) = true := by decide
+  simp [hmid]
   rfl
-
 
 theorem colon_mem_isoClock (k : Clock) : ':' ∈ isoClock k := by simp [isoClock]
 theorem colon_mem_isoClockMs (k : Clock) : ':' ∈ isoClockMs k := by simp [isoClockMs]
@@ -128,11 +129,11 @@ theorem rt_time (P : Prims) (hP : PrimLaws P) (t : TimeV) (hv : t.valid = true) 
   rw [contains_singleton_of_mem (colon_mem_fromTime t), hP.time_iso t hv hz hms]
   rfl
 
-theorem rt_delta (P : Prims) (hP : PrimLaws P) (us : Int) (h : us.natAbs < maxDelta) :
-    toTimedelta P (durationIso us) = .ok us := by
+theorem rt_delta (P : Prims) (hP : PrimLaws P) (m : Mode) (us : Int) (h : us.natAbs < maxDelta) :
+    toTimedelta m P (durationIso us) = .ok us := by
   obtain ⟨g, hg, hsign, htd⟩ := hP.dur_iso us h
   unfold toTimedelta
-  simp only [hP.dur_float us, hP.dur_re0 us, hg, htd, Bool.false_eq_true, ↓reduceIte]
+  simp only [hP.dur_float us, hP.dur_re0 us, hg, htd, Bool.and_false, Bool.false_eq_true, ↓reduceIte]
   by_cases hneg : us < 0
   · have : (g.sign == ['-']) = true := by simpa [hneg] using hsign
     simp only [this, ↓reduceIte]
@@ -145,9 +146,9 @@ theorem rt_delta (P : Prims) (hP : PrimLaws P) (us : Int) (h : us.natAbs < maxDe
 theorem Dec.canon_zero (neg : Bool) (e : Int) : (Dec.fin neg 0 e).canon = .fin false 0 0 := by
   simp [Dec.canon]
 
-theorem rt_dec (P : Prims) (hP : PrimLaws P) (d : Dec) (hd : d.inDomain Cfg.fixed = true) :
-    ∃ d', toDecimal P (fromDecimal Cfg.fixed P d) = .ok d' ∧ d'.canon = d.canon := by
-  have hstr : ∀ d : Dec, toDecimal P (.str (P.decStr d)) = .ok d := by
+theorem rt_dec (P : Prims) (hP : PrimLaws P) (m : Mode) (d : Dec) (hd : d.inDomain Cfg.fixed = true) :
+    ∃ d', toDecimal m P (fromDecimal Cfg.fixed P d) = .ok d' ∧ d'.canon = d.canon := by
+  have hstr : ∀ d : Dec, toDecimal m P (.str (P.decStr d)) = .ok d := by
     intro d
     have hc := hP.dec_str_clean d
     have hne : (P.decStr d).isEmpty = false := by
@@ -184,13 +185,13 @@ theorem rt_dec (P : Prims) (hP : PrimLaws P) (d : Dec) (hd : d.inDomain Cfg.fixe
         · simp only [Cfg.fixed, ht, Bool.and_self, ↓reduceIte]; exact ⟨_, hstr _, rfl⟩
         · simp only [ht, Bool.and_false, Bool.false_eq_true, ↓reduceIte]
           obtain ⟨_, hz, hrt⟩ := hP.dec_float neg c e hd.1 (by simpa using hu) (by simpa using ht)
-          by_cases hc0 : c = 0
-          · subst hc0
-            have : (P.floatOfDec (.fin neg 0 e)).isZero = true := by simpa using hz
-            exact ⟨.fin false 0 0, by simp [toDecimal, this], by simp [Dec.canon]⟩
-          · have hcz : (c == 0) = false := by simp [hc0]
-            have : (P.floatOfDec (.fin neg c e)).isZero = false := by rw [hz, hcz]
-            exact ⟨P.decOfFloat (P.floatOfDec (.fin neg c e)), by simp [toDecimal, this], hrt hc0⟩
+          by_cases hzf : (!m.noExplicitCast && (P.floatOfDec (.fin neg c e)).isZero) = true
+          · have hz1 : (P.floatOfDec (.fin neg c e)).isZero = true := by
+              simp only [Bool.and_eq_true] at hzf; exact hzf.2
+            have hc0 : c = 0 := by rw [hz] at hz1; simpa using hz1
+            subst hc0
+            exact ⟨.fin false 0 0, by simp only [toDecimal, hzf, ↓reduceIte], by simp [Dec.canon]⟩
+          · exact ⟨P.decOfFloat (P.floatOfDec (.fin neg c e)), by simp only [toDecimal, hzf, Bool.false_eq_true, ↓reduceIte], hrt⟩
 
 theorem findIdx?_distinct {α β : Type} [BEq β] [LawfulBEq β] (f : α → β) :
     ∀ (l : List α) (i : Nat) (m : α), distinct (l.map f) = true → l[i]? = some m →
@@ -218,8 +219,8 @@ theorem findIdx?_distinct {α β : Type} [BEq β] [LawfulBEq β] (f : α → β)
         rw [this] at hd1; cases hd1
     simp [findIdx?, hne, findIdx?_distinct f xs j m hd2 hm']
 
-theorem rt_enum (decl : EnumDecl) (i : Nat) (hwf : decl.wf = true) (hi : i < decl.members.length) :
-    ∃ m, decl.members[i]? = some m ∧ toEnum Cfg.fixed decl m.2.toJson = .ok i := by
+theorem rt_enum (m : Mode) (decl : EnumDecl) (i : Nat) (hwf : decl.wf = true) (hi : i < decl.members.length) :
+    ∃ mem, decl.members[i]? = some mem ∧ toEnum Cfg.fixed m decl mem.2.toJson = .ok i := by
   have hm : decl.members[i]? = some decl.members[i] := List.getElem?_eq_getElem hi
   refine ⟨decl.members[i], hm, ?_⟩
   simp only [EnumDecl.wf, Bool.and_eq_true, List.all_eq_true] at hwf
@@ -227,17 +228,17 @@ theorem rt_enum (decl : EnumDecl) (i : Nat) (hwf : decl.wf = true) (hi : i < dec
   have hval : findIdx? (fun m => m.2 == (decl.members[i]).2) decl.members = some i :=
     findIdx?_distinct (fun m : Str × EVal => m.2) decl.members i _ hdv hm
   have hty' := hty _ (List.getElem_mem hi)
-  generalize decl.members[i] = m at hm hval hty'
-  obtain ⟨nm, v⟩ := m
+  generalize decl.members[i] = mem at hm hval hty'
+  obtain ⟨nm, v⟩ := mem
   cases v with
   | int k =>
-    cases hmx : decl.mixin <;> simp [hmx] at hty' <;>
-      simp [toEnum, EVal.toJson, hmx, hval]
+    cases hmx : decl.mixin <;> simp [hmx] at hty' <;> cases m <;>
+      simp [toEnum, EVal.toJson, hmx, hval, Mode.noExplicitCast, Mode.noDataLoss]
   | str s =>
-    cases hmx : decl.mixin <;> simp [hmx] at hty' <;>
-      (simp only [toEnum, EVal.toJson, hmx, Cfg.fixed, ↓reduceIte]
-       cases findIdx? (fun m => m.1 == s) decl.members <;> simp [hval])
-
+    cases hmx : decl.mixin <;> simp [hmx] at hty' <;> cases m <;>
+      (simp only [toEnum, EVal.toJson, hmx, Cfg.fixed, Mode.noExplicitCast, Mode.noDataLoss, Bool.false_eq_true, ↓reduceIte]
+       try cases findIdx? (fun m => m.1 == s) decl.members <;> simp [hval]
+       try simp [hval])
 
 theorem lit0 : "0".toList = natStr 0 := by decide
 theorem lit1 : "1".toList = natStr 1 := by decide
@@ -252,8 +253,13 @@ theorem intStr_ne_alpha (i : Int) (c : Char) (r : Str) (hc : c.isDigit = false) 
   · simp [hd] at hc
   · exact hm hd
 
-theorem rt_intKey (P : Prims) (hP : PrimLaws P) (i : Int) : toIntegerStr P (intStr i) = .ok i := by
+theorem rt_intKey_strict (P : Prims) (s : Str) : toIntegerStr .strict P s = .perr := by
+  simp [toIntegerStr, Mode.noExplicitCast]
+
+theorem rt_intKey (P : Prims) (hP : PrimLaws P) (m : Mode) (hm : m.noExplicitCast = false) (i : Int) :
+    toIntegerStr m P (intStr i) = .ok i := by
   unfold toIntegerStr
+  simp only [hm, Bool.false_eq_true, ↓reduceIte]
   have hne : (intStr i).isEmpty = false := by
     cases h : intStr i with
     | nil => exact absurd h (intStr_ne_nil i)
@@ -274,7 +280,7 @@ theorem rt_intKey (P : Prims) (hP : PrimLaws P) (i : Int) : toIntegerStr P (intS
       rcases this with h | h | h | h | h | h
       · rw [lit1] at h; have := intStr_eq_natStr h; subst this; rfl
       all_goals exact absurd h (intStr_ne_alpha i _ _ (by decide) (by decide))
-    · simp only [hT, Bool.false_eq_true, ↓reduceIte, hP.dec_int i, Dec.toInt?]
+    · simp only [hT, Bool.false_eq_true, ↓reduceIte, hP.dec_int i, Dec.toInt?, BEq.rfl, Bool.not_true, Bool.and_false]
       congr 1
       by_cases hn : i < 0 <;> simp [hn] <;> omega
 
